@@ -119,7 +119,7 @@ Qed.
 
 (* numbers accepted by one step *)
 Definition acc_of (ev : event) (o : output) : list Z :=
-  match ev, o with Unprotect r _, OUnprot Accept => [seqno r] | _, _ => [] end.
+  match ev, o with Unprotect r _, OUnprot Accept | UnprotectFails r _, OUnprot Accept => [seqno r] | _, _ => [] end.
 (* Echo re-initialisation happens with a number above everything accepted so far (the peer's numbers increase and
    the Echo value of this lifetime cannot occur in a message created before it) *)
 Definition echo_cond (w : world) (A : list Z) (ev : event) : Prop :=
@@ -128,7 +128,8 @@ Definition echo_cond (w : world) (A : list Z) (ev : event) : Prop :=
                              forall m, In m A -> m < seqno r
   | _, _ => True
   end.
-Definition ev_ok2 (ev : event) : Prop := match ev with Unprotect r _ => 0 <= seqno r | _ => True end.
+Definition ev_ok2 (ev : event) : Prop :=
+  match ev with Unprotect r _ => 0 <= seqno r | ProtectFails _ | UnprotectFails _ _ => False | _ => True end.
 
 Lemma WinOK_nil_to sz A ow : WinOK sz A ow -> WinOK sz [] ow.
 Proof. destruct ow; cbn; [|auto]. intros (H1 & H2 & _). split; [exact H1|]. split; [exact H2|]. intros n []. Qed.
@@ -253,7 +254,7 @@ Lemma step_rok w ev A : ROK w A -> ev_ok2 ev -> echo_cond w A ev ->
 Proof.
   intros (Hs & HD & HP) Hok Hecho. unfold step. unfold echo_cond in Hecho.
   destruct (w_proc w) as [p|] eqn:Ep.
-  - destruct ev as [a|n a|r a|a| |start lim echo].
+  - destruct ev as [a|n a|r a|a| |start lim echo|a|k|r k].
     + pose proof (nsn_rok (w_size w) p (w_disk w) a A Hs HP HD) as H.
       destruct (new_sequence_number p (w_disk w) a) as [[p1 d1] [v|e|]]; cbn [acc_of]; rewrite app_nil_r;
         (split; [|intros ? []]); (split; [exact Hs|]); cbn [w_size w_disk w_proc mkw]; try tauto.
@@ -274,7 +275,17 @@ Proof.
       rewrite Hno, app_nil_r. split; [|intros ? []]. split; [exact Hs|]. cbn [w_size w_disk w_proc mkw]. tauto.
     + cbn [acc_of]. rewrite app_nil_r. split; [|intros ? []]. split; [exact Hs|]. cbn [w_size w_disk w_proc mkw]. tauto.
     + cbn [acc_of]. rewrite app_nil_r. split; [|intros ? []]. split; [exact Hs|]. split; [exact HD|]. rewrite Ep. exact HP.
-  - destruct ev as [a|n a|r a|a| |start lim echo]; cbn [acc_of]; rewrite app_nil_r; (split; [|intros ? []]);
+    + destruct (pend p) as [[n [|]]|].
+      * cbn [acc_of]. rewrite app_nil_r. split; [|intros ? []]. split; [exact Hs|]. split; [exact HD|exact HP].
+      * pose proof (nsn_rok (w_size w) p (w_disk w) a A Hs HP HD) as H.
+        destruct (new_sequence_number p (w_disk w) a) as [[p1 d1] [v|e|]]; cbn [acc_of]; rewrite app_nil_r;
+          (split; [|intros ? []]); (split; [exact Hs|]); cbn [w_size w_disk w_proc mkw]; try tauto.
+      * pose proof (nsn_rok (w_size w) p (w_disk w) a A Hs HP HD) as H.
+        destruct (new_sequence_number p (w_disk w) a) as [[p1 d1] [v|e|]]; cbn [acc_of]; rewrite app_nil_r;
+          (split; [|intros ? []]); (split; [exact Hs|]); cbn [w_size w_disk w_proc mkw]; try tauto.
+    + destruct Hok.
+    + destruct Hok.
+  - destruct ev as [a|n a|r a|a| |start lim echo|a|k|r k]; cbn [acc_of]; rewrite app_nil_r; (split; [|intros ? []]);
       try (split; [exact Hs|]; split; [exact HD|]; rewrite Ep; exact I).
     destruct (load_rok (w_size w) start lim echo (w_disk w) A Hs HD) as (H1 & H2).
     split; [exact Hs|]. cbn [w_size w_disk w_proc mkw]. tauto.
@@ -288,7 +299,7 @@ Fixpoint fresh_echo_run (w : world) (A : list Z) (evs : list event) : Prop :=
   end.
 
 Lemma accepted_cons e r o os : accepted (e :: r) (o :: os) = acc_of e o ++ accepted r os.
-Proof. destruct e; cbn; try reflexivity. destruct o; try reflexivity. destruct o; reflexivity. Qed.
+Proof. destruct e; cbn; try reflexivity; (destruct o; try reflexivity; destruct o; reflexivity). Qed.
 
 Lemma NoDup_app_single (A : list Z) x : NoDup A /\ ~ In x A -> NoDup (A ++ [x]).
 Proof.
@@ -310,7 +321,7 @@ Proof.
     { destruct (acc_of e o) as [|x [|y l]] eqn:Ea.
       - rewrite app_nil_r. exact Hnd.
       - apply NoDup_app_single. split; [exact Hnd|]. apply Hnew. left; reflexivity.
-      - exfalso. destruct e; cbn in Ea; try discriminate. destruct o; try discriminate. destruct o; discriminate. }
+      - exfalso. destruct e; cbn in Ea; try discriminate; (destruct o; try discriminate; destruct o; discriminate). }
     destruct (IH w1 _ HR1 Hr Hfr Hnd1) as (HR2 & Hnd2).
     destruct (run w1 r) as [w2 os]. cbn [fst snd] in *.
     rewrite accepted_cons, app_assoc. auto.
@@ -409,7 +420,7 @@ Lemma step_echoin E w ev A : ROK w A -> ev_ok2 ev -> EchoIn E w -> ev_noecho E e
 Proof.
   intros (Hs & HD & HP) Hok HE Hev. unfold step, EchoIn in *.
   destruct (w_proc w) as [p|] eqn:Ep.
-  - destruct ev as [a|n a|r a|a| |start lim echo].
+  - destruct ev as [a|n a|r a|a| |start lim echo|a|k|r k].
     + pose proof (nsn_disk p (w_disk w) a) as H. destruct (new_sequence_number p (w_disk w) a) as [[p1 d1] [v|e|]];
         destruct H as (Hu & _); cbn [fst w_proc mkw]; try exact I; rewrite Hu; exact HE.
     + pose proof (seq_loop_uc (Z.to_nat n) p (w_disk w) a []) as H.
@@ -427,7 +438,12 @@ Proof.
     + destruct (_destroy p (w_disk w) a) as [d' died]. cbn. exact I.
     + cbn. exact I.
     + cbn [fst]. rewrite Ep. exact HE.
-  - destruct ev as [a|n a|r a|a| |start lim echo]; cbn [fst]; try (rewrite Ep; exact I).
+    + destruct (pend p) as [[n [|]]|]; [cbn; exact HE| |];
+        (pose proof (nsn_disk p (w_disk w) a) as H; destruct (new_sequence_number p (w_disk w) a) as [[p1 d1] [v|e|]];
+         destruct H as (Hu & _); cbn [fst w_proc mkw]; try exact I; rewrite Hu; exact HE).
+    + destruct Hok.
+    + destruct Hok.
+  - destruct ev as [a|n a|r a|a| |start lim echo|a|k|r k]; cbn [fst]; try (rewrite Ep; exact I).
     cbn. exists echo. split; [reflexivity|exact Hev].
 Qed.
 
